@@ -215,6 +215,13 @@ impl Block for AuDecode {
                 self.state = DecodeState::WaitingHeader(data_offset as usize);
             }
             DecodeState::WaitingHeader(data_offset) => {
+                // The fixed header is 24 bytes, of which magic and data offset
+                // (8 bytes) have been consumed already.
+                if data_offset < 24 {
+                    return Err(Error::msg(format!(
+                        ".au data offset {data_offset} is smaller than the header"
+                    )));
+                }
                 let header_rest_len = data_offset - 8;
                 if i.len() < header_rest_len {
                     return Ok(BlockRet::WaitForStream(&self.src, header_rest_len));
